@@ -14,7 +14,7 @@ def pairs(v):
     return [(a, b) for a in v for b in v]
 
 
-def programs(tier, b, P):
+def programs(tier, b, P, res=1):
     progs = []
     lim = 1 << (b - 1)
     inr = list(range(-lim, lim))                 # values that fit the bitlength
@@ -74,7 +74,7 @@ def programs(tier, b, P):
             for y in fv:
                 for (ka, kb) in (("F", "F"), ("F", "f")):
                     B = gen.Builder("b%d/fxp/%s/%s%s/%d,%d" % (b, op, ka, kb, x[0], y[0]), "plain", None,
-                                    {"op": "fxp_" + op, "kinds": ka + kb, "a": x[0], "b": y[0]})
+                                    {"op": "fxp_" + op, "kinds": ka + kb, "a": x[0] * (1 << res) // x[1], "b": y[0] * (1 << res) // y[1]})   # scaled integers
                     ra, rb = B.opnd((ka, x)), B.opnd((kb, y))
                     B.add({"op": "bin", "name": op, "a": ra, "b": rb, "tag": "main"})
                     progs.append(B.build())
@@ -132,15 +132,20 @@ def heavy(i):
 
 
 def collect(run, cfg, tier, want_heavy, cap_per_family=None):
-    progs = programs(tier, cfg["bitlength"], cfg["P"])
+    progs = programs(tier, cfg["bitlength"], cfg["P"], cfg["resolution"])
     traces = common.run_programs(cfg, progs)
-    insts, skipped, fam = [], 0, {}
+    insts, skipped, fam, big_skipped = [], 0, {}, 0
     for tr in traces:
         inst = instances.from_trace(tr, "unique")
         if inst is None or inst["out"] != "ok" or not inst["res"]:
             skipped += 1
             continue
         if heavy(inst) != want_heavy:
+            continue
+        if cfg["P"] > 100 and inst["op"] in ("lshift", "pow") and inst["kinds"] in ("SS", "cS"):
+            # shift by / power with a secret exponent: the selected powers are products of free wires; at P=257 ten instances do
+            # not finish in 200 s (measured), these families are searched exhaustively at P=67 only
+            big_skipped += 1
             continue
         k = (inst["op"], inst["kinds"], inst["gmode"])
         fam[k] = fam.get(k, 0) + 1
@@ -149,13 +154,14 @@ def collect(run, cfg, tier, want_heavy, cap_per_family=None):
         insts.append(inst)
         run.nontrivial.add((cfg["P"],) + k)
     run.evaluations += len(insts)
-    run.notes.append("P=%d b=%d %s: %d instances (%d calls raised or returned no secret: not judged)" % (
-        cfg["P"], cfg["bitlength"], "division-based" if want_heavy else "other", len(insts), skipped))
+    run.notes.append("P=%d b=%d %s: %d instances (%d calls raised or returned no secret: not judged%s)" % (
+        cfg["P"], cfg["bitlength"], "division-based" if want_heavy else "other", len(insts), skipped,
+        "; %d secret-exponent instances left to the smaller field" % big_skipped if big_skipped else ""))
     if len(run.samples) < 2 and insts:
         run.samples.append(insts[len(insts) // 2])
     common.validate_insts(run, "Soundness", insts, cfg="Soundness_C02.cfg",
                           label="P=%d,b=%d,%s" % (cfg["P"], cfg["bitlength"], "div" if want_heavy else "main"), programs=progs,
-                          chunk=250, parallel=8)
+                          chunk=250 if cfg["P"] < 100 else 40, parallel=8)
 
 
 def main(tier):
